@@ -27,5 +27,5 @@ one() {
   rm -rf "$D"
 }
 export -f one
-ls -d "$M"/*/ | xargs -P "$J" -I{} bash -c 'one "$@"' _ {} "$TESTS" > "$OUT"
+ls -d "$M"/*/ | sed "s:/$::" | xargs -P "$J" -I{} bash -c 'one "$@"' _ {} "$TESTS" > "$OUT"
 echo "done: $(wc -l < "$OUT") mutants"
